@@ -247,7 +247,42 @@ def unit_schema(U):
     IM_.prove_plain_schema(U, "C02", ['features', 'relations'])
 
 
-UNITS = [("schema", unit_schema), ("query", unit_query)] + IM.c02_units() + [("parse.parents", unit_parse_parents), ("bounded.text", unit_bounded_text)]
+def unit_bounded_after_abort(U):
+    """Bounded: an import is independent of the imports before it in the same process - in particular of one that was ABORTED
+    half-way (a duplicate ID under merge_strategy='error', a malformed line): the corrected file, imported next, gives exactly
+    its own Parent graph"""
+    fails, cases = [], 0
+    mk = lambda i, t, par=None: F.Feature(seqid="c", source="s", featuretype=t, start=1, end=9, strand="+", attributes=dict({"ID": [i]}, **({"Parent": par} if par else {})))
+    bad = [mk("g1", "gene"), mk("m1", "mRNA", ["g1"]), mk("e1", "exon", ["m1"]), mk("e3", "exon", ["m1", "g1"]), mk("m1", "mRNA", ["g1"])]      # duplicate m1 -> aborts
+    good = [mk("g1", "gene"), mk("m2", "mRNA", ["g1"]), mk("e2", "exon", ["m2"])]
+    for via in ("create_db", "update"):
+        for target in (":memory:", "file"):
+            cases += 1
+            import tempfile, os, shutil
+            d = tempfile.mkdtemp()
+            try:
+                try:
+                    gffutils.create_db([IM._copyf(f) for f in bad], ":memory:")
+                    aborted = False
+                except Exception:
+                    aborted = True
+                dbfn = ":memory:" if target == ":memory:" else os.path.join(d, "x.db")
+                if via == "create_db":
+                    db = gffutils.create_db([IM._copyf(f) for f in good], dbfn)
+                else:
+                    db = gffutils.create_db([IM._copyf(good[0])], dbfn)
+                    db.update([IM._copyf(f) for f in good[1:]], make_backup=False)
+                rel = {(r["parent"], r["child"], r["level"]) for r in db.execute("SELECT parent, child, level FROM relations")}
+                exp = IM.expected_gff3_relations(good)
+                if not aborted or rel != exp:
+                    fails.append({"case": {"first (aborted) import": [str(f) for f in bad], "then %s" % via: [str(f) for f in good]}, "expected": sorted(exp), "observed": sorted(rel) if aborted else "the first import did not abort"})
+            except Exception as e:
+                fails.append({"case": {"via": via, "target": target}, "expected": "no exception", "observed": repr(e)})
+            finally:
+                shutil.rmtree(d, ignore_errors=True)
+    U.bounded_result("C02.bounded.after_abort", "the Parent graph of an import that follows an aborted import in the same process is its own", "create_db / update x memory / file", cases, fails)
+
+UNITS = [("bounded.after_abort", unit_bounded_after_abort), ("schema", unit_schema), ("query", unit_query)] + IM.c02_units() + [("parse.parents", unit_parse_parents), ("bounded.text", unit_bounded_text)]
 
 
 def replay_file(doc):
